@@ -69,6 +69,10 @@ pub struct Run {
     pub xsched: Vec<Value>,
     #[serde(default)]
     pub x_gap_us: u64,
+    /// do not wait for an abandoned (timed-out but terminating) handler before going on: the simulation is
+    /// then dropped while that handler is still running
+    #[serde(default)]
+    pub no_settle: bool,
 }
 
 struct DelayHooks {
@@ -758,8 +762,10 @@ pub fn execute(bench: &Bench, run: &Run, out: &mut dyn Write, start: &Instant) {
                 };
                 if resv["r"] == "timeout" {
                     TIMED_OUT.with(|t| t.set(true));
-                    // let the abandoned handler finish before going on
-                    std::thread::sleep(Duration::from_millis(SLEEP_OP_MS + 300));
+                    if !run.no_settle {
+                        // let the abandoned handler finish before going on
+                        std::thread::sleep(Duration::from_millis(SLEEP_OP_MS + 300));
+                    }
                 }
                 let t = sh.tick_of(simu.time());
                 emit(&sh, out, json!({"ev": "ret", "res": resv, "t": t}));
